@@ -2,7 +2,7 @@
 (* MC_Core with a history variable: run with TLC -simulate; every behaviour of MaxLen calls is printed
    (call, outcome and the heap after it) and replayed in the real code by the C08 driver. *)
 EXTENDS MC_Core, Json
-CONSTANT MaxLen
+CONSTANTS MaxLen, EmitOneIn        \* every sibling of the last step would be printed: print one in EmitOneIn
 VARIABLE hist
 SInit == Init /\ hist = <<[act |-> act, last |-> last, heap |-> heap]>>
 \* (TLC -simulate picks uniformly among successor states, and most successors are failing lookups: keep one in five)
@@ -12,5 +12,5 @@ SNext == /\ Len(hist) <= MaxLen
          /\ (act'.op \in {"LookupBase", "Restore", "AddIsotope"} /\ last' = "found" => RandomElement(1..3) = 1)
          /\ hist' = Append(hist, [act |-> act', last |-> last', heap |-> heap'])
 SSpec == SInit /\ [][SNext]_<<vars, hist>>
-EmitHist == (Len(hist) = MaxLen + 1) => PrintT("@@" \o ToJson([hist |-> hist]))
+EmitHist == (Len(hist) = MaxLen + 1 /\ RandomElement(1..EmitOneIn) = 1) => PrintT("@@" \o ToJson([hist |-> hist]))
 =============================================================================
